@@ -163,3 +163,64 @@ for name, enc, nat in (("unsigned_leb128_decode", uenc, True), ("signed_leb128_d
         ],
         loops={0: _dec_loop(enc, nat)},
     ))
+
+
+# ---- lemmas over the contracts ----------------------------------------------
+from pyvc.engine import Lemma
+
+
+def _x():
+    return SymInt(z3.Int("x"))
+
+
+def _roundtrip(enc, nat):
+    def build():
+        x = _x()
+        hyps = [x >= 0] if nat else []
+        # encoder post: result == enc(x); decoder pre: remaining == enc(v) ++ rest.
+        # Instantiation v := x, rest := [] must satisfy the decoder precondition,
+        # and the decoder post (result == v) is then x.
+        empty = SymSeq(S.empty_seq(), "bytes")
+        return hyps, seq_eq(enc(x), cat(enc(x), empty))
+    return build
+
+
+def _ulen_minimal():
+    # strong induction on x >= 0:  L = len(uenc(x)) satisfies
+    #   x < 2^(7L)  and  (L == 1 or x >= 2^(7(L-1)))
+    # i.e. no sequence of fewer than L seven-bit groups can represent x.
+    x = _x()
+    y = x // 128
+
+    def claim(v):
+        L = length(uenc(v))
+        return and_(L >= 1, v < pow2(7 * L), or_(L == 1, v >= pow2(7 * (L - 1))))
+    hyps = [x >= 0, implies(x >= 128, claim(y))]     # IH at y = x // 128 < x
+    return hyps, claim(x)
+
+
+def _slen_minimal():
+    # signed: L = len(senc(x)) satisfies  -2^(7L-1) <= x < 2^(7L-1)  and
+    # (L == 1 or not (-2^(7(L-1)-1) <= x < 2^(7(L-1)-1)))
+    x = _x()
+    y = x // 128
+
+    def fits(v, L):
+        return and_(v >= -pow2(7 * L - 1), v < pow2(7 * L - 1))
+
+    def claim(v):
+        L = length(senc(v))
+        return and_(L >= 1, fits(v, L), or_(L == 1, not_(fits(v, L - 1))))
+    hyps = [implies(not_(_sterm(x)), claim(y))]
+    return hyps, claim(x)
+
+
+LEMMAS = [
+    Lemma("roundtrip-unsigned: encoder post establishes decoder pre (v:=x, rest:=[])", _roundtrip(uenc, True)),
+    Lemma("roundtrip-signed: encoder post establishes decoder pre (v:=x, rest:=[])", _roundtrip(senc, False)),
+    Lemma("unsigned-minimal-length (induction step, IH at x//128)", _ulen_minimal),
+    Lemma("signed-minimal-length (induction step, IH at x//128)", _slen_minimal),
+]
+
+ASSUMED = []
+NOT_COVERED = ["callers of the LEB128 codec (wasm reader/writer, DWARF) are outside this claim"]
